@@ -62,7 +62,11 @@ def detect(d, tier="quick"):
     wt = worktree("d_" + tag)
     try:
         rc, out = sh(["git", "-C", wt, "apply", os.path.abspath(os.path.join(d, "patch.diff"))])
-        assert rc == 0, out
+        if rc != 0:
+            rc, out = sh(["git", "-C", wt, "apply", "-3", os.path.abspath(os.path.join(d, "patch.diff"))])
+        if rc != 0:
+            # the patch was written against an earlier /repo HEAD and a later repair touched the same lines
+            return {"id": tag, "property": prop, "exit": -1, "lines": ["patch no longer applies to /repo HEAD (superseded by a later repair): " + out.strip()[-160:]]}
         env = dict(os.environ, VERIF_REPO=wt)
         rc, out = sh(["/verif/check", prop, "--tier", tier], cwd="/verif", env=env, timeout=3600)
         lines = [l for l in out.splitlines() if l.startswith(("VIOLATION", "KNOWN-FINDING", prop))]
@@ -90,7 +94,7 @@ def matrix():
         for r in sorted(rows, key=lambda r: r["id"]):
             meta = json.load(open("/verif/seeded/%s/meta.json" % r["id"]))
             kinds = sorted(set(w.split("kind=")[1].split()[0] for w in r["lines"] if "kind=" in w))
-            f.write("| %s | %s | %s | %s | %s |\n" % (r["id"], r["property"], "yes" if r["exit"] == 1 and kinds else "NO",
+            f.write("| %s | %s | %s | %s | %s |\n" % (r["id"], r["property"], "yes" if r["exit"] == 1 and kinds else ("n/a (patch superseded)" if r["exit"] == -1 else "NO"),
                     ", ".join(kinds), meta.get("needs_to_manifest", "").replace("|", "/").replace("\n", " ")[:300]))
     print("written seeded/RESULTS.md")
 
